@@ -2,29 +2,13 @@
 import json, os, subprocess, sys
 pid, wt = sys.argv[1], sys.argv[2]
 base = subprocess.run([sys.executable, os.path.join(os.path.dirname(__file__), "mutant_prompt.py"), pid, wt], capture_output=True, text=True).stdout
-ALREADY = {
- "C01": ["memory insert_one allocating the id as len(bucket)", "sqlite _rows_to_events decoding JSON through an lru_cache (shared dicts)", "memory get_events returning Event(**e) instead of deep copies"],
- "C02": ["peewee _get_last with an extra id tie-break", "memory insert_one allocating the id as len(bucket)", "memory replace_last choosing max end instant"],
- "C03": ["memory get_events early stop at the first event that ended before the window", "peewee _where_range losing the UTC normalisation of endtime"],
- "C04": ["peewee insert_many upserts via bulk_update keyed by primary key", "sqlite replace_last sub-select with an unscoped max(id)"],
- "C05": ["sqlite delete_bucket rolling back when the bucket does not exist", "peewee BucketModel.json using replace(tzinfo=utc)", "sqlite bucket id -> rowid cache not invalidated on delete_bucket"],
- "C06": ["sqlite insert_many upserts through one uncounted executemany(UPDATE)", "peewee insert_many wrapped in session_start/session_commit without try/finally"],
- "C07": ["memory replace_last choosing max end instant", "sqlite insert_one using a stale bucket id -> rowid cache"],
- "C08": ["negative-duration guard testing the merged duration", "heartbeat_reduce caching a stale window end"],
- "C09": ["_intersecting_eventpairs ignoring zero-length intersections", "period_union fast path when one list is empty"],
- "C10": ["flood leaving the consumed event at its old start", "flood dropping zero-length input events first"],
- "C11": ["query() stopping after the first RETURN assignment", "QList.check mishandling escaped quotes inside strings"],
- "C12": ["memory get_events returning shallow copies", "query() normalising the window with replace(tzinfo=utc)"],
- "C13": ["to_json_dict dropping the days of the duration", "timestamp setter not flooring datetimes"],
- "C14": ["legacy file detection by prefix", "migration batches with a wrong slice"],
- "C15": ["list-one event emitted early when a list-two event straddles its start", "_split_event splitting at exactly the event end"],
- "C16": ["merge_events_by_keys grouping with data.get(key) is not None", "filter_keyvals exclude pre-selecting events that carry the key"],
- "C17": ["integer scanner accepting a bare '-'", "re-annotating a typechecked parameter so the typecheck skips it"],
- "C18": ["upsert-only insert_many returning before conditional_commit", "age test through timedelta.seconds"],
- "C19": ["_pick_category via max(key=len)", "compiled-regex cache keyed by the regex text only"],
- "C20": ["parsed defaults behind an lru_cache", "table-vs-table merge via dict.update"],
-}
-extra = "\n\nIMPORTANT -- changes of the following kinds have ALREADY been collected for this property. Do NOT repeat these mechanisms or anything equivalent; find two DIFFERENT ideas (other code sites, other operations, other backends, other kinds of mistake such as ordering of two steps, a boundary comparison, a cache/shared mutable default, an off-by-one in a cursor, state carried across calls or across buckets, error-path behaviour):\n" + "\n".join(f"  - {x}" for x in ALREADY.get(pid, [])) + "\n"
+import glob
+ALREADY = {}
+for mp in sorted(glob.glob(os.path.join(os.path.dirname(os.path.dirname(os.path.abspath(__file__))), "seeded", "C*", "meta.json"))):
+    m = json.load(open(mp))
+    if m.get("summary"):
+        ALREADY.setdefault(m["breaks_property"], []).append(m["summary"])
+extra = "\n\nIMPORTANT -- changes of the following kinds have ALREADY been collected for this property. Do NOT repeat these mechanisms or anything equivalent; find two DIFFERENT ideas -- subtle ones (other code sites, other operations, other backends, other kinds of mistake such as ordering of two steps, a boundary comparison, a cache/shared mutable default, an off-by-one in a cursor, state carried across calls or across buckets, error-path behaviour):\n" + "\n".join(f"  - {x}" for x in ALREADY.get(pid, [])) + "\n"
 marker = "Deliverables, in the directory"
 i = base.index(marker)
 print(base[:i] + extra.lstrip("\n") + "\n" + base[i:])
